@@ -471,7 +471,7 @@ def check(case, ctx):
                     rows = np.where(~np.all(np.isfinite(o_.astype(float).reshape(len(o_), -1)), axis=1))[0]
                     bad = int(rows[0]) if len(rows) else None
             for v in ctx.viols[nv:]:
-                v.region = "pose:generic"          # (the field samples of these histories are in general position)
+                v.region = "pose:generic(long fast recording)"          # (the field samples of these histories are in general position)
                 if isinstance(v.detail, dict):
                     v.detail.update(first_non_finite_sample=bad, samples=n, rate_times_step=float(np.linalg.norm(g[0]) * 0.01), history=region)
         elif len(ctx.viols) > nv:
